@@ -150,7 +150,7 @@ def exec2 (toks : List String) : String :=
       let cts ← (rest.take n').mapM decCTok
       pure (match convertClassicTokens cts with
         | some ts => " ".intercalate ("ok" :: ts.map showTok)
-        | none => "panic")).getD "bad-op"
+        | none => "PANIC")).getD "bad-op"
   | "ast" :: n :: rest =>
     (do
       let n' ← n.toNat?
@@ -174,7 +174,7 @@ def exec2 (toks : List String) : String :=
       pure (match parse cls (chars.map (fun (x : Nat × Nat × Nat) => x.1)) no with
         | .ok t => "ok " ++ showTerm t
         | .err e => showErr e
-        | .panic => "panic")).getD "bad-op"
+        | .panic => "PANIC")).getD "bad-op"
   | "show" :: which :: lam :: rest =>
     (do
       let lam' ← lam.toNat?
